@@ -466,7 +466,11 @@ def bfs(prog, alphabet, depth, mode, max_states=None):
                     if bad:
                         run.close()
                         continue
-                    v = run.apply(op, True)
+                    try:
+                        v = run.apply(op, True)
+                    except Exception as e:   # noqa
+                        # the pipeline did something the comparison cannot digest (never on the unchanged tree): a violation
+                        v = ("unexpected-behaviour", _first_node(prog), "%s: %s" % (type(e).__name__, str(e)[:160]))
                     runs += 1
                     transitions += 1
                     if v is not None:
@@ -478,7 +482,13 @@ def bfs(prog, alphabet, depth, mode, max_states=None):
                             viol[sig] = (v[0], v[1], v[2], hist + (op,))
                         run.close()
                         continue
-                    k = run.key()
+                    try:
+                        k = run.key()
+                    except Exception as e:   # noqa
+                        viol.setdefault(("unexpected-behaviour", "key"), ("unexpected-behaviour", _first_node(prog),
+                                                                          "state snapshot failed: %s: %s" % (type(e).__name__, str(e)[:160]), hist + (op,)))
+                        run.close()
+                        continue
                     run.close()
                     if k not in seen:
                         seen.add(k)
